@@ -72,6 +72,7 @@ type SchedSpec struct {
 	GCPermil    int    `json:"gc_permil,omitempty"`
 	StallPermil int    `json:"stall_permil,omitempty"`
 	StallMean   int    `json:"stall_mean,omitempty"`
+	SyncQ       int    `json:"sync_q,omitempty"`
 }
 
 // Scenario is one fully explicit simulated run (everything but the schedule,
@@ -89,7 +90,11 @@ type Scenario struct {
 	MapSeed  uint64     `json:"map_seed"`           // order in which library `range <map>` loops iterate (the simulator owns it)
 	Contend  bool       `json:"contend,omitempty"`
 	Shape    string     `json:"shape,omitempty"` // workload shape this scenario was drawn with (informational)
+
+	hot []hotQuery // generation-time only
 }
+
+type hotQuery struct{ q, field string }
 
 func policyID(name string) int {
 	for i, n := range zsimrt.PolicyNames {
@@ -111,6 +116,9 @@ func genScenario(r *zsimrt.Rand, run, seed uint64, cold bool, c *corpus) *Scenar
 	// workload shape (swarm style): 0-3 every task works on ONE shared expression,
 	// 4-5 every task hammers the global entry points, 6-9 a free mix
 	shape := r.Intn(10)
+	if cold && shape >= 2 {
+		shape = 4 // a cold process is mostly about the first concurrent use of the global entry points
+	}
 	focusExpr := shape <= 3 && !cold
 	focusGlobal := shape == 4 || shape == 5
 	sc.Shape = "mixed"
@@ -167,10 +175,28 @@ func genScenario(r *zsimrt.Rand, run, seed uint64, cold bool, c *corpus) *Scenar
 	if !zsimrt.Instrumented {
 		faultPerm = 0 // degraded mode: no callback faults
 	}
+	// hot query set: the global entry points are called again and again with a
+	// small per-run set of (query, field) pairs, sized around typical cache
+	// capacities, so that memoising code sees hits, misses and evictions in one run
+	sc.hot = nil
+	if focusGlobal || r.Intn(4) == 0 {
+		k := []int{1, 2, 3, 5, 8, 13, 17, 20, 33, 50}[r.Intn(10)]
+		nf := 1 + r.Intn(2)
+		for i := 0; i < k; i++ {
+			q := c.query(r)
+			if r.Intn(3) != 0 {
+				q = c.renderable(r)
+			}
+			sc.hot = append(sc.hot, hotQuery{q, fieldChoices[r.Intn(nf*3)%len(fieldChoices)]})
+		}
+	}
 	for t := 0; t < nTasks; t++ {
 		nOps := 1 + r.Intn(6)
 		if focusExpr {
 			nOps = 1 + r.Intn(3)
+		}
+		if focusGlobal && len(sc.hot) >= 8 {
+			nOps = 4 + r.Intn(10)
 		}
 		var ops []Op
 		for i := 0; i < nOps; i++ {
@@ -204,9 +230,14 @@ func genScenario(r *zsimrt.Rand, run, seed uint64, cold bool, c *corpus) *Scenar
 	} else {
 		pols = []string{"uniform", "uniform", "uniform", "pct", "pct", "single", "single", "rr", "targeted", "targeted"}
 	}
+	if zsimrt.UsesSync {
+		// the library takes locks: spend a good share of the runs preempting exactly at lock releases/acquires
+		pols = append(pols, "sync", "sync", "sync", "sync")
+	}
 	sp := SchedSpec{Policy: pols[r.Intn(len(pols))]}
+	sp.SyncQ = []int{1, 2, 4, 10, 30}[r.Intn(5)]
 	sp.MeanGap = []int{1, 3, 10, 30, 100, 1000}[r.Intn(6)]
-	if focusExpr {
+	if focusExpr || cold {
 		sp.MeanGap = []int{1, 2, 5, 10, 30, 100}[r.Intn(6)]
 	}
 	sp.Quantum = []int{1, 2, 5, 17, 100, 999}[r.Intn(6)]
@@ -292,6 +323,10 @@ func genOp(r *zsimrt.Rand, c *corpus, sc *Scenario, bias, faultPerm, hot int) Op
 			op.Query = c.renderable(r)
 		}
 		op.Field = fieldChoices[r.Intn(len(fieldChoices))]
+		if len(sc.hot) > 0 && r.Intn(8) != 0 {
+			h := sc.hot[r.Intn(len(sc.hot))]
+			op.Query, op.Field = h.q, h.field
+		}
 		return op
 	case KUnmarshal:
 		op.Query = c.jsonDoc(r)
@@ -312,7 +347,7 @@ func genOp(r *zsimrt.Rand, c *corpus, sc *Scenario, bias, faultPerm, hot int) Op
 	}
 	switch op.Kind {
 	case KRender, KRenderParam:
-		op.Fresh = r.Intn(4) == 0
+		op.Fresh = r.Intn(4) == 0 || sc.Cold // cold: no driver value exists before the run
 	case KCRender, KCRenderParam:
 		if faultPerm > 0 && r.Intn(1000) < faultPerm*3 {
 			kinds := []string{FError, FError, FPanic, FPanic, FSlow, FSlow, FExit}
